@@ -92,7 +92,8 @@ def mutateBytes (bs : Bytes) : Gen Bytes := do
   return out
 
 def allCfgs : List (Nat × ReaderKind) :=
-  [(0, .seek), (0, .bufio), (0, .plain), (188, .seek), (188, .bufio), (188, .plain), (192, .seek), (204, .plain), (200, .bufio)]
+  [(0, .seek), (0, .bufio), (0, .plain), (188, .seek), (188, .bufio), (188, .plain), (192, .seek), (204, .plain), (200, .bufio),
+   (0, .bufioSmall), (188, .bufioSmall)]
 
 def runC03 (t : Tier) : Emit Unit := do
   -- empty and tiny inputs, every configuration, both APIs
